@@ -159,7 +159,7 @@ def parse_graphic_sequence(
                 fn_set = False
                 fn_found = False
                 for fn in _AnsiControlFn:
-                    if fn.seq_starts_with_fn(items):
+                    if fn.seq_starts_with_fn(items[idx:]):
                         left_in_set = fn.total_seq_count
                         fn_set = True
                     elif value == fn.setup_seq[0]:
